@@ -108,6 +108,15 @@ func discharge(obls []*Obligation, timeoutMs int) {
 		if o.Res.Status != "" {
 			continue
 		}
+		if o.rawText != "" {
+			o := o
+			wg.Add(1)
+			go func() {
+				defer wg.Done()
+				o.Res = solveCached(o.rawText, timeoutMs)
+			}()
+			continue
+		}
 		if o.Kind == "cover" {
 			o := o
 			// terms are built on this goroutine only (the term table is not concurrent); the first paths are solved in
